@@ -3,7 +3,7 @@
 CHECKS = {}
 NOT_APPLICABLE = {}
 # properties whose checks have been run end-to-end by the orchestrator and are registered in MANIFEST.json
-READY = ["C01", "C02", "C03", "C04", "C05", "C06", "C07", "C08", "C09", "C10", "C11", "C12", "C13", "C15", "C16", "C17", "C18", "C19"]
+READY = ["C01", "C02", "C03", "C04", "C05", "C06", "C07", "C08", "C09", "C10", "C11", "C12", "C13", "C14", "C15", "C16", "C17", "C18", "C19", "C20"]
 ENGINES = [
     {"name": "codec", "path": "engines/codec", "serves_properties": ["C05", "C06", "C07", "C10", "C11", "C12"],
      "kind_free_text": "bounded-exhaustive enumeration of finite input domains / BFS over operation histories of the real codec objects against exact-arithmetic reference models"},
